@@ -140,12 +140,11 @@ class Eval:
         raise NotInFragment(f"contract {k}")
 
     def fold(self, f):
-        # F(0)=init, F(k+1)=step[acc:=F(k)]: evaluated innermost (init) first when the
-        # accumulator is the first thing the step evaluates -- checked by the caller via
-        # fold_shape(); here: events(init) ++ rep(step events without acc)
-        init_v = self.expr(f.init)
+        """F(0)=init, F(k+1)=step[acc:=F(k)] -- the finished tree is
+        step_last(step_..(step_first(init))).  Evaluating it runs, for every round from the
+        OUTERMOST inwards, what the step evaluates before its accumulator, then init, then,
+        from the innermost round outwards, what the step evaluates after it."""
         marker = ("acc", tagstr(f.acc.tag))
-        f.acc.props["sem"] = ("accref", marker)
         saved = self.abstract
 
         def abstract2(o):
@@ -158,10 +157,18 @@ class Eval:
             evs, v = self.sub(lambda: self.expr(f.step))
         finally:
             self.abstract = saved
-        if not evs or evs[0] != ("accref",):
-            raise NotInFragment("fold step does not evaluate its accumulator first")
-        self.emit("rep", f.length, f.jvar, f.rev, evs[1:])
-        return ("foldval", tagstr(f.tag))
+        idx = [i for i, e in enumerate(evs) if e == ("accref",)]
+        if len(idx) != 1:
+            raise NotInFragment("fold step must evaluate its accumulator exactly once")
+        pre, post = evs[:idx[0]], evs[idx[0] + 1:]
+        # rounds run j = 0..n-1 (f.rev: n-1..0); the last round is the outermost node
+        outer_first_rev = not f.rev  # outermost = largest j when rounds ascend
+        if pre:
+            self.emit("rep", f.length, f.jvar, outer_first_rev, pre)
+        init_v = self.expr(f.init)
+        if post:
+            self.emit("rep", f.length, f.jvar, not outer_first_rev, post)
+        return ("foldval", tagstr(f.tag), init_v)
 
     # -- real nodes -------------------------------------------------------------------
     def x_Constant(self, e):
